@@ -39,6 +39,12 @@ CHECKS['C08'] = dict(tech='Kani/CBMC on the real block_store.rs (small caches, d
 CHECKS['C12'] = dict(tech='MIR symbolic execution (mirsym) of the consensus and gossip handshake coroutines and of PoolWatch::insert/remove + z3',
     text='the four handshake functions accept iff the signed session id is this stream\'s id, the genesis matches, the signature is genuinely by the claimed key over this id and (outbound) the key is the dialled peer, for every symbolic received handshake (ideal signatures); pools: one insert/remove from an arbitrary pool (4 keys, symbolic quota) decides and updates per the specification, and the invariant survives a second complete insert interleaved at the lock acquisition',
     note='trusted: ideal signatures, frame I/O by contract, Watch as mutex-guarded cell; uniqueness of noise session ids (snow) assumed; accept loops outside', ref='4/C12')
+CHECKS['C09'] = dict(tech='MIR symbolic execution (mirsym) of every ProtoFmt build/read pair + z3; Kani/CBMC for the std_conv scalar converters',
+    text='PARTIAL: value-level losslessness read(build(x)) == Ok(x) for every workspace ProtoFmt type on fully symbolic values (Options both ways, repeated fields / vote maps <= 2 entries, valid Schedules built by the real constructor) and, bit-precisely by Kani, for Duration / Utc / SocketAddr / BitVec (lengths 0..17) / Rate. Byte-level canonicity (canonical_raw, prost / quick-protobuf, alternative serialisations) is NOT decided',
+    note='trusted: leaf codecs of keys/signatures/hashes ideal (inverse bijections); two handshake types containing semver::Version / HashMap and Genesis (cached hash) are skipped and listed in the evidence', ref='4/C09')
+CHECKS['C13'] = dict(tech='Kani/CBMC proof harnesses over the real noise/bytes.rs', engine='kani',
+    text='PARTIAL: representation invariant and operation contracts of the noise Buffer from every reachable state (capacity 8, symbolic contents), the read-path frame consumption step and the frame-size constants; the poll_read/poll_write state machine, the cipher and tamper detection are NOT decided',
+    note='trusted: Kani/CBMC, harness state generator shown to reach every begin <= end <= cap; snow/tokio outside', ref='4/C13')
 NA = {
  'C01': 'agreement quantifies over all multi-node schedules x Byzantine behaviours x crash points of the async replica system; no bounded solver encoding of the real replicas is within reach (its local obligations are decided under C02, C03, C04, C05, C07, C11)',
  'C06': 'liveness over fair infinite suffixes from adversarially reached states; not expressible as a bounded symbolic-execution query',
